@@ -133,6 +133,35 @@ pub(crate) fn validate_submit(
     None
 }
 
+/// A new task cannot depend on a task of a previous submit that has already failed or that was
+/// canceled or aborted. Such a dependency is no longer known to the scheduler, so the new task
+/// would be started as if it had no dependency at all.
+///
+/// This is checked only for new submits and not in `validate_submit`, because a submit restored
+/// from a journal may contain a dependency that has failed after the submit was accepted.
+fn validate_dependency_states(
+    job: Option<&Job>,
+    task_desc: &JobTaskDescription,
+) -> Option<SubmitResponse> {
+    if let (Some(job), JobTaskDescription::Graph { tasks, .. }) = (job, task_desc) {
+        for task in tasks {
+            for dep_id in &task.task_deps {
+                if let Some(dep) = job.tasks.get(dep_id)
+                    && matches!(
+                        dep.state,
+                        JobTaskState::Failed { .. }
+                            | JobTaskState::Canceled { .. }
+                            | JobTaskState::Aborted { .. }
+                    )
+                {
+                    return Some(SubmitResponse::InvalidDependencies(*dep_id));
+                }
+            }
+        }
+    }
+    None
+}
+
 #[allow(clippy::await_holding_refcell_ref)] // Disable lint as it does not work well with drop
 pub(crate) fn handle_submit(
     state_ref: &StateRef,
@@ -142,10 +171,10 @@ pub(crate) fn handle_submit(
     log_submit_request(&message);
 
     let mut state = state_ref.get_mut();
-    if let Some(err) = validate_submit(
-        message.job_id.and_then(|job_id| state.get_job(job_id)),
-        &message.submit_desc.task_desc,
-    ) {
+    let job = message.job_id.and_then(|job_id| state.get_job(job_id));
+    if let Some(err) = validate_submit(job, &message.submit_desc.task_desc)
+        .or_else(|| validate_dependency_states(job, &message.submit_desc.task_desc))
+    {
         return ToClientMessage::SubmitResponse(err);
     }
     if let JobTaskDescription::Array {
